@@ -115,7 +115,8 @@ def title(rng):
 def history(rng, nops, blink=True, graphic=True, sized=True, ops_weights=None, behbits=None):
     """returns the script line (without oracle config)"""
     if behbits is None:
-        behbits = rng.randrange(32)
+        # bits 0-4: the five flags the library consults; bits 5-11: the seven it declares but ignores (non-default values)
+        behbits = rng.randrange(32) | (rng.choice([0, 0, 0, 1 << rng.randrange(7), rng.randrange(128)]) << 5)
     w, h = rng.choice([(1, 1), (2, 2), (3, 2), (4, 3), (5, 5), (10, 4), (40, 12), (80, 24), (250, 2), (3, 120), (rng.randrange(1, 41), rng.randrange(1, 13))])
     parts = ["T %d" % behbits]
     if sized:
